@@ -13,6 +13,7 @@ CONSTANTS
   Multis = {FALSE, TRUE}
   Muts = {0}
   RouteIds = {1, 2, 3, 4, 5, 6, 7, 8}
+  Reconfs = {0}
   Rounds = 1
 INVARIANT TypeOK
 INVARIANT H_sane
